@@ -155,6 +155,7 @@ func c13Schedules(seed uint64, r0 *Resp, thorough bool) []c13Sched {
 		out = append(out, mk("clock-advance", func(c *SchedConfig) { c.ClockMode = "advance" }, 0))
 	}
 	out = append(out, mk("ident-vary", func(c *SchedConfig) { c.IdentMode = "vary" }, 0))
+	out = append(out, mk("env-vary", func(c *SchedConfig) { c.EnvMode = "vary" }, 0))
 	if bubbleOn {
 		// goroutine interleavings, everything else pinned
 		out = append(out, mk("go-lifo", func(c *SchedConfig) { c.GoMode = "lifo" }, 0))
@@ -164,7 +165,7 @@ func c13Schedules(seed uint64, r0 *Resp, thorough bool) []c13Sched {
 	}
 	// everything at once
 	out = append(out, mk("all-mix", func(c *SchedConfig) {
-		c.MapMode, c.ClockMode, c.IdentMode = "mix", "mix", "vary"
+		c.MapMode, c.ClockMode, c.IdentMode, c.EnvMode = "mix", "mix", "vary", "vary"
 		if bubbleOn {
 			c.GoMode = "mix"
 		}
@@ -222,6 +223,18 @@ func (st *c13State) program(i int, thorough bool) error {
 	c := st.c
 	seed := SubSeed(c.Seed, "c13", i)
 	prog := GenProg(seed)
+	if i%32 == 31 {
+		// a program the compiler rejects (unknown or ill-valued option): the
+		// verdict and its message must not depend on the schedule either; this
+		// is what reaches the map range in model.AddOption
+		prog.NoOptBlock = false
+		if i%64 == 31 {
+			prog.Opts = append(prog.Opts, Opt{"NoSuchOption", "1"})
+		} else {
+			prog.Opts = append(prog.Opts, Opt{"LittleEndian", "maybe"})
+		}
+		c.ev.Fire("rejected_program", 1)
+	}
 	text := prog.Render()
 	req := &Req{ID: i, Op: "gen", DSL: []byte(text), History: AllTargets, Sched: s0()}
 	r0, err := st.pools[0].Do(req)
@@ -496,6 +509,9 @@ func (c *Ctx) candidate13(caseIdx int, prog *Prog, sd c13Sched, target string) {
 		file, line, l0, l1, diffs = firstFileDiff(sa, sb)
 	}
 	summary := fmt.Sprintf("target %s: %s differs at line %d between the sorted/pinned schedule and a schedule perturbing %s at %s: %q vs %q", target, file, line, strings.Join(sortedKeys(kinds), "+"), strings.Join(sortedKeys(sites), ","), clip(l0, 120), clip(l1, 120))
+	if len(kinds) == 0 && target != "*" {
+		summary = fmt.Sprintf("target %s: %s differs at line %d between two fresh processes given the IDENTICAL schedule, input and flags (something of the process itself — its working directory, identity or environment — reaches the output): %q vs %q", target, file, line, clip(l0, 120), clip(l1, 120))
+	}
 	if target == "*" {
 		summary = fmt.Sprintf("the compiler's verdict itself depends on the schedule: %q vs %q", clip(validity(ra), 160), clip(validity(rbb), 160))
 	}
